@@ -384,7 +384,7 @@ def fileOffsets (file : Option (List Char)) : ReadRes :=
 /-- `BasicProblem::item_name` (src/problem.cc): generated name `stub k` with `]` after a stub ending in `[`,
 otherwise `_`; index counted from `ksub` -/
 def itemName (stub : Name) (k ksub : Nat) : Name :=
-  stub ++ dec (k - ksub + 1) ++ (if stub.getLast? = some '[' then [']'] else ['_'])
+  stub ++ dec (k - ksub + 1) ++ [if '[' = stub.getD (stub.length - 1) ' ' then ']' else '_']
 
 /-- the names `BasicProblem` invents when nothing was read but names are asked for by the graph export
 (`cvt:writegraph`): `_x[i]`, `_sdvar[i]`, `_CON<i>_`, `_LCON<i>_`, `_OBJ<i>_` -/
